@@ -384,7 +384,10 @@ class PageBreakCalculator(BaseModel):
                         header_text, total_width, font_size=int(font_size)
                     )  # type: ignore
 
-            total_rows = max_lines_in_row + pageby_rows + subline_rows
+            # The subline heading is a per-page component that is already
+            # reserved through additional_rows_per_page; do not charge it a
+            # second time to the first row of each subline group.
+            total_rows = max_lines_in_row + pageby_rows
 
             row_metadata_list.append(
                 {
